@@ -563,3 +563,129 @@ Proof.
         eexists. split; [reflexivity|]. eexists. split; vm_compute; reflexivity.
       * intros g a [<-|[<-|[]]] Hl; vm_compute in Hl; discriminate Hl.
 Qed.
+
+(* ====================================================================== *)
+(* ARBITRARY DEPTH: glue-complete, alias-free chains of delegations         *)
+(* ====================================================================== *)
+From RV Require Import Resolver.RecursiveChain Resolver.ResolverCacheInstance.
+
+(* For EVERY universe [u], every chain of its zones  zroot > z1 > ... > zk  ([rest] = z1..zk, k
+   arbitrary) in which each zone is delegated from the one before on the way to the question name
+   with A glue for each of its nameservers, and the last zone owns the question name plainly; every
+   list of root hints from which Zone::insert builds the resolver's only local zone; every candidate
+   order that is a permutation; every port; every fuel >= k + 2: started on an empty SimpleCache in
+   protocol mode only-v4 against the fault-free universe oracle (through the wire codec), the
+   recursive resolver returns EXACTLY the authoritative answer (the records of the asked type as the
+   owning zone lists them, or no records and that zone's SOA), and its log is exactly one UDP
+   exchange about the question per zone of the chain, in order, root server first: the i-th with a
+   server whose closest zone for the question name is the i-th zone of the chain.  The depths of
+   the apexes along the chain increase strictly (each referral followed is strictly deeper).
+
+   Hypotheses (RecursiveDepth1.v, RecursiveChain.v), all but [serve_fits] inside [plain_question]
+   decidable on the universe, the hints and the question:
+     hints_for u zroot hints q, plain_question u q     as for C07_correct_depth0/1
+     chain_from u hints q [] zroot [z1; ..; zk]        for each i:  chain_link [z(i-1); ..; zroot] zi z(i+1),
+                                                       and  answering_zone u zk q
+     chain_link prev zp zc
+        the delegation point of zp on the way to the name is the apex of zc; zp's cut records are NS
+        records; the apex of zc has strictly more labels than that of zp; the question name owns no
+        glue or data in zp (finding F11); every nameserver host of the cut has a well-formed name and
+        an A record with TTL > 0 in zp's glue or data; every A record for that host in the glue or
+        data of zp or of a zone above it in the chain ([prev]: the cache may hold their glue by then),
+        and every A record the hints hold for it, names a server whose closest zone for the question
+        name is zc.
+   C07_correct_depth0 / _depth1 are the cases k = 0 / k = 1 (RecursiveChain.delegated_from_root_link). *)
+Theorem C07_correct_chain :
+  forall (sort_names : list dname -> list dname) (port : N) (u : universe) (zroot : uzone) (rest : list uzone)
+         (hints : list rr) (hz : zone) (q : question) (fuel : nat),
+  (forall l, Permutation (sort_names l) l) ->
+  uz_apex zroot = root_domain ->
+  zone_build root_domain None (hint_ops hints) = Ok hz ->
+  hints_for u zroot hints q -> plain_question u q ->
+  chain_from u hints q [] zroot rest -> (length rest + 2 <= fuel)%nat ->
+  exists c' ts',
+    resolve scache sc_get sc_insert_all sort_names (ModeRecursive OnlyV4) port (zones_insert [] hz)
+            (universe_oracle u []) fuel q (sc_empty, tstate_init)
+    = (Ok (NonAuthoritative (aa_rrs (auth_answer u q)) (aa_soa (auth_answer u q))), (c', ts'))
+    /\ Forall2 (fun z e => exists a, query_to port q a e /\ serves_owner u (inl a) z q) (zroot :: rest) (ts_log ts')
+    /\ depths_increase zroot rest.
+Proof.
+  intros sort_names port u zroot rest hints hz q fuel Hs Ha Hb Hh Hq Hc Hf.
+  exact (chain_correct sort_names Hs port u zroot hints hz q Ha Hb Hh Hq rest fuel Hc Hf).
+Qed.
+Print Assumptions C07_correct_chain.
+
+(* the same for the real cache model (Cache/CacheModel.v under its invariant), started empty
+   (Cache::new) at any fixed virtual instant [now] *)
+Theorem C07_correct_chain_real_cache :
+  forall (now : N) (sort_names : list dname -> list dname) (port : N) (u : universe) (zroot : uzone) (rest : list uzone)
+         (hints : list rr) (hz : zone) (q : question) (fuel : nat),
+  (forall l, Permutation (sort_names l) l) ->
+  uz_apex zroot = root_domain ->
+  zone_build root_domain None (hint_ops hints) = Ok hz ->
+  hints_for u zroot hints q -> plain_question u q ->
+  chain_from u hints q [] zroot rest -> (length rest + 2 <= fuel)%nat ->
+  exists c' ts',
+    resolve rcache (rc_get now) (rc_insert_all now) sort_names (ModeRecursive OnlyV4) port (zones_insert [] hz)
+            (universe_oracle u []) fuel q (rc_new, tstate_init)
+    = (Ok (NonAuthoritative (aa_rrs (auth_answer u q)) (aa_soa (auth_answer u q))), (c', ts'))
+    /\ Forall2 (fun z e => exists a, query_to port q a e /\ serves_owner u (inl a) z q) (zroot :: rest) (ts_log ts')
+    /\ depths_increase zroot rest.
+Proof.
+  intros now sort_names port u zroot rest hints hz q fuel Hs Ha Hb Hh Hq Hc Hf.
+  exact (chain_correct_real_cache now sort_names Hs port u zroot hints hz q Ha Hb Hh Hq rest fuel Hc Hf).
+Qed.
+Print Assumptions C07_correct_chain_real_cache.
+
+(* the three laws of the abstract cache the induction uses, stated over histories of insert_all
+   from the empty cache (cache_after = fold_left insert_all): the empty cache answers nothing; an A
+   record read at a name agrees in name, type and data with a record some insert_all was given; an
+   A record with TTL > 0 given to the last insert_all makes the read at its name non-empty.
+   SimpleCache meets them, and so does the real cache model at any fixed instant. *)
+Theorem C07_chain_cache_laws :
+  ((forall n t, sc_get sc_empty n t = [])
+   /\ (forall ls n x, In x (sc_get (cache_after scache sc_insert_all sc_empty ls) n RT_A) ->
+         rr_name x = n /\ rr_type x = RT_A /\ rr_class x = RC_IN /\
+         exists r, In r (concat ls) /\ rr_name r = n /\ rr_type r = RT_A /\ rr_data r = rr_data x)
+   /\ (forall ls rrs r, In r rrs -> rr_type r = RT_A -> 0 < rr_ttl r ->
+         sc_get (cache_after scache sc_insert_all sc_empty (ls ++ [rrs])) (rr_name r) RT_A <> []))
+  /\ forall now,
+     ((forall n t, rc_get now rc_new n t = [])
+      /\ (forall ls n x, In x (rc_get now (cache_after rcache (rc_insert_all now) rc_new ls) n RT_A) ->
+            rr_name x = n /\ rr_type x = RT_A /\ rr_class x = RC_IN /\
+            exists r, In r (concat ls) /\ rr_name r = n /\ rr_type r = RT_A /\ rr_data r = rr_data x)
+      /\ (forall ls rrs r, In r rrs -> rr_type r = RT_A -> 0 < rr_ttl r ->
+            rc_get now (cache_after rcache (rc_insert_all now) rc_new (ls ++ [rrs])) (rr_name r) RT_A <> [])).
+Proof.
+  split; [split; [exact sc_empty_get|split; [exact sc_hist_sound|exact sc_hist_complete]]|].
+  intro now. split; [exact (rc_empty_get now)|split; [exact (rc_hist_sound now)|exact (rc_hist_complete now)]].
+Qed.
+Print Assumptions C07_chain_cache_laws.
+
+(* ---- the hypotheses are met by a worked chain of depth 3 (RecursiveChain.v, section 5):
+   . -> com. -> example.com. -> sub.example.com., one nameserver with glue per zone, a consistent
+   universe; www.sub.example.com. A is answered after three referrals (four exchanges, fuel 5 =
+   k + 2), and MX is denied with the SOA of sub.example.com. after the same four exchanges; the
+   last conjuncts are the same run evaluated inside Coq (vm_compute): the addresses asked, in order *)
+Example C07_example_depth3 :
+  (exists c' ts',
+     resolve scache sc_get sc_insert_all sort_names_ord (ModeRecursive OnlyV4) 53 (zones_insert [] c3_hz)
+             (universe_oracle c3_universe []) 5%nat c3_q (sc_empty, tstate_init)
+     = (Ok (NonAuthoritative [c3_rr c3_n_www RT_A 300 (RD_A 3221225985)] None), (c', ts'))
+     /\ Forall2 (fun z e => exists a, query_to 53 c3_q a e /\ serves_owner c3_universe (inl a) z c3_q)
+                [c3_root; c3_com; c3_ex; c3_sub] (ts_log ts')
+     /\ depths_increase c3_root [c3_com; c3_ex; c3_sub])
+  /\ (exists c' ts',
+     resolve scache sc_get sc_insert_all sort_names_ord (ModeRecursive OnlyV4) 53 (zones_insert [] c3_hz)
+             (universe_oracle c3_universe []) 5%nat c3_q_mx (sc_empty, tstate_init)
+     = (Ok (NonAuthoritative [] (Some (uz_soa c3_sub))), (c', ts'))
+     /\ Forall2 (fun z e => exists a, query_to 53 c3_q_mx a e /\ serves_owner c3_universe (inl a) z c3_q_mx)
+                [c3_root; c3_com; c3_ex; c3_sub] (ts_log ts')
+     /\ depths_increase c3_root [c3_com; c3_ex; c3_sub])
+  /\ (let r := resolve scache sc_get sc_insert_all sort_names_ord (ModeRecursive OnlyV4) 53 (zones_insert [] c3_hz)
+                       (universe_oracle c3_universe []) 5%nat c3_q (sc_empty, tstate_init) in
+      fst r = Ok (NonAuthoritative [c3_rr c3_n_www RT_A 300 (RD_A 3221225985)] None)
+      /\ map x_addr (ts_log (snd (snd r))) = [(inl c3_ip0, 53); (inl c3_ip1, 53); (inl c3_ip2, 53); (inl c3_ip3, 53)]
+      /\ consistentb c3_universe = true).
+Proof. exact (conj chain_example_depth3 (conj chain_example_depth3_nodata chain_example_depth3_eval)). Qed.
+Print Assumptions C07_example_depth3.
